@@ -213,3 +213,20 @@ package codegen
 //@   ensures [struct] int(handle) < len(w.module.Types) && is(mty(w, handle), ir.StructType) ==> result == mty(w, handle).(ir.StructType).Span
 //@   ensures [atomic] int(handle) < len(w.module.Types) && is(mty(w, handle), ir.AtomicType) ==> result == uint32(mty(w, handle).(ir.AtomicType).Scalar.Width)
 //@   pure
+
+// ---- MSL pipeline-constant folding of override expressions (C14, C06) --------------------------
+//
+// Binary override-expressions are folded on a float64 carrier and converted
+// back to the left operand's type. For i32/u32 operands the float64 result of
+// + - * is exact (|operands| < 2^32), so the folded literal is right whenever
+// the mathematical result fits the type; when it does not fit (an overflowing
+// override-expression, a pipeline-creation error in WGSL) the expression must be
+// left unfolded, not replaced by the out-of-range float-to-int conversion.
+//
+//@ func evalBinaryOp
+//@   mode bv
+//@   tags C14 C06
+//@   ensures [i32-overflow-not-folded] op == ir.BinaryMultiply && is(left, ir.LiteralI32) && is(right, ir.LiteralI32) && (int64(int32(left.(ir.LiteralI32))) * int64(int32(right.(ir.LiteralI32))) < -2147483648 || int64(int32(left.(ir.LiteralI32))) * int64(int32(right.(ir.LiteralI32))) > 2147483647) ==> isnil(result)
+//@   ensures [div-by-zero-not-folded] op == ir.BinaryDivide && is(left, ir.LiteralI32) && is(right, ir.LiteralI32) && int32(right.(ir.LiteralI32)) == 0 ==> isnil(result)
+//@   ensures [unsupported-not-folded] op != ir.BinaryAdd && op != ir.BinarySubtract && op != ir.BinaryMultiply && op != ir.BinaryDivide ==> isnil(result)
+//@   pure
